@@ -56,6 +56,8 @@ type Scenario struct {
 	// AllowBlocked lists substrings of "name: why" entries of Result.Blocked that are legitimate.
 	AllowBlocked []string
 	NoSpinRule   bool // do not turn vrt spin reports into failures (rare)
+	CheckRaces   bool // run the happens-before race detector and fail on any reported race
+	AccessPoints bool // plain field/map accesses are scheduling points (fine mode only)
 }
 
 type Violation struct {
@@ -130,6 +132,12 @@ type runOut struct {
 func runOnce(sc *Scenario, prefix []int) runOut {
 	x := &X{}
 	r := vrt.Run(sc.Cfg, prefix, func() {
+		if sc.CheckRaces {
+			vrt.EnableRaces()
+		}
+		if sc.AccessPoints {
+			vrt.AccessPoints(true)
+		}
 		if sc.Setup != nil {
 			sc.Setup(x)
 		}
@@ -148,6 +156,11 @@ func runOnce(sc *Scenario, prefix []int) runOut {
 				} else {
 					x.Tag("transient-spin-wait")
 				}
+			}
+		}
+		if sc.CheckRaces {
+			for _, rc := range r.Races {
+				x.Fail("no-data-race", "data race: %s  ||  %s", rc.First, rc.Second)
 			}
 		}
 		if sc.Post != nil {
